@@ -48,6 +48,11 @@ pub trait PT: Copy + Send + Sync + 'static + core::fmt::Debug {
     fn to_f64(self) -> f64;
     fn conv_from_f32(x: f32) -> Self;
     fn conv_from_f64(x: f64) -> Self;
+    /// `num_traits` spellings of the float conversions (C02 judges them with the exact oracle, C17 differentially)
+    fn nt_from_f32(x: f32) -> Option<Self>;
+    fn nt_from_f64(x: f64) -> Option<Self>;
+    fn nc_from_f32(x: f32) -> Option<Self>;
+    fn nc_from_f64(x: f64) -> Option<Self>;
     fn conv_to_f32(self) -> f32;
     fn conv_to_f64(self) -> f64;
     // ints
@@ -195,6 +200,10 @@ macro_rules! impl_pt {
             #[inline] fn to_f64(self) -> f64 { <$P>::to_f64(self) }
             #[inline] fn conv_from_f32(x: f32) -> Self { <$P as From<f32>>::from(x) }
             #[inline] fn conv_from_f64(x: f64) -> Self { <$P as From<f64>>::from(x) }
+            #[inline] fn nt_from_f32(x: f32) -> Option<Self> { <$P as num_traits::FromPrimitive>::from_f32(x) }
+            #[inline] fn nt_from_f64(x: f64) -> Option<Self> { <$P as num_traits::FromPrimitive>::from_f64(x) }
+            #[inline] fn nc_from_f32(x: f32) -> Option<Self> { <$P as num_traits::NumCast>::from(x) }
+            #[inline] fn nc_from_f64(x: f64) -> Option<Self> { <$P as num_traits::NumCast>::from(x) }
             #[inline] fn conv_to_f32(self) -> f32 { <f32 as From<$P>>::from(self) }
             #[inline] fn conv_to_f64(self) -> f64 { <f64 as From<$P>>::from(self) }
             #[inline] fn from_i8(x: i8) -> Self { <$P>::from_i8(x) }
